@@ -549,9 +549,8 @@ func streamCases(r *streamRun, kept []*cliStream, first int) []string {
 		}
 		if len(h.Errtxt) > 0 && acked[h.Seq] {
 			// an error frame on an established stream (the handler wrote a value the body codec could not
-			// encode): it carries no message; the stream model has no such frame, for it it is traffic
-			// that leaves the stream alone
-			s2c = append(s2c, "PUnary 0")
+			// encode): it carries no message
+			s2c = append(s2c, fmt.Sprintf("PErr %d", h.Seq+1))
 			continue
 		}
 		if len(h.Body) == 0 {
@@ -599,6 +598,7 @@ func runStream(work, prop string) {
 	streamPoll(e)
 	if prop == "C10" {
 		streamStopRace(e)
+		streamMultiReader(e)
 	}
 	e.Res.Rule = "end-to-end stream runs over a chunking byte pipe: 1-4 streams per connection interleaved with unary calls and pings; the handler pushes 0-3 messages before reading (first server write races with stream establishment); numbered, tagged, self-checking messages of 4..70004 bytes; every stream's two directions compared message by message; then a reader blocked on each end and (a) client Close of one stream with siblings kept working, (b) connection loss; poll-mode server over a real unix socket; (C10) readers about to block racing with Close / connection loss, 12 streams a round; the frames both readers received are replayed through the model's routing; non-trivial = distinct (pushes, chunk mode, streams, close mode, message count)"
 	names := writeCases(work, "From Coq Require Import List. Import ListNotations. From RPC Require Import RunStream. From RPC.Stream Require Import Model.", "scase", cases, 60)
@@ -728,5 +728,56 @@ func streamStopRace(e *Env) {
 			round = rounds
 		}
 		e.count("stop-race", fmt.Sprintf("sr-%d", round%40))
+	}
+}
+
+// streamMultiReader: several goroutines blocked in ReadMessage on the SAME stream when it is closed or its
+// connection ends: every one of them returns ErrStreamShutdown.
+func streamMultiReader(e *Env) {
+	pid := e.Res.Property
+	for k := 0; k < 12; k++ {
+		r := newStreamRun(e, 0, 0, k%4 == 1, k%5 == 2, k%3 == 1)
+		how := []string{"Stream.Close", "Conn.Close", "connection loss"}[k%3]
+		desc := map[string]interface{}{"scenario": "several readers blocked on one stream", "readers": 3, "ended_by": how, "run": k, "seed": e.Seed}
+		s, err := r.conn.NewStream("Chat.Chat")
+		if err != nil {
+			e.fail(pid+"-open-failed", fmt.Sprintf("NewStream failed: %v", err), desc)
+			continue
+		}
+		const readers = 3
+		out := make(chan error, readers)
+		for i := 0; i < readers; i++ {
+			go func() {
+				var m []byte
+				out <- s.ReadMessage(nil, &m)
+			}()
+		}
+		quiesce()
+		switch k % 3 {
+		case 0:
+			s.Close()
+		case 1:
+			r.conn.Close()
+		default:
+			r.cliRW.Close()
+		}
+		deadline := time.After(3 * time.Second)
+		got := 0
+	wait:
+		for got < readers {
+			select {
+			case err := <-out:
+				got++
+				if err != rpc.ErrStreamShutdown {
+					e.fail(pid+"-blocked-read-error-kind", fmt.Sprintf("a ReadMessage blocked when its stream ended (%s) returned %v", how, err), desc)
+				}
+			case <-deadline:
+				e.fail(pid+"-stream-reader-stays-blocked", fmt.Sprintf("%d of %d goroutines blocked in ReadMessage on one stream were still blocked 3s after %s", readers-got, readers, how), desc)
+				break wait
+			}
+		}
+		r.conn.Close()
+		r.cliRW.Close()
+		e.count("multi-reader", fmt.Sprintf("mr-%d", k))
 	}
 }
